@@ -159,6 +159,12 @@ def run(ctx):
                     e[s] = ""
             envs.append(e)
         envs = [e for e in envs if selection(prog, e) is not None]
+        # records that leave a declared field out: whatever such a call does (today: TypeError), it does so every time, on every
+        # evaluator, whatever was passed before
+        if envs and len(envs[0]) >= 2:
+            for e in rnd.sample(envs, min(3, len(envs))):
+                drop = rnd.choice(sorted(e))
+                envs.append({k: v for k, v in e.items() if k != drop})
         if envs:
             corpus.append((gp, prog, envs))
     # return statements that repeat a group label (any fold / merge through a set or dict would order them by hash)
@@ -222,7 +228,7 @@ def run(ctx):
                 ops.append(("call", rnd.randrange(len(insts)), j))
         rnd.shuffle(ops)
         ops += [("call", i % len(insts), j) for i, j in enumerate(reversed(range(len(envs))))]
-        extra = []
+        extra = [("copy", None, None)]
         for _ in range(3):
             extra.append(("recompile-away", rnd.randrange(len(insts)), None))
             extra.append(("new", None, None))
@@ -264,6 +270,22 @@ def run(ctx):
                 n = new_eval(gp.text)
                 if n:
                     insts.append(n)
+            elif op == "copy":
+                # a copy of an evaluator (copy / deepcopy; pickling is not supported today) is an evaluator of whatever text
+                # the original holds at that moment
+                import copy as _copy
+
+                k = rnd.randrange(len(insts))
+                try:
+                    dup = (_copy.deepcopy if rnd.random() < 0.5 else _copy.copy)(insts[k][0])
+                except Exception:  # noqa: BLE001
+                    ctx.count("copy-not-supported")
+                    continue
+                serial[0] += 1
+                insts.append([dup, insts[k][1], serial[0]])
+                if k in away:
+                    away.add(len(insts) - 1)
+                ctx.count("in-process/copies")
             elif op == "other":
                 oev, otext, osid = other[3][0]
                 if otext == other[0].text:
